@@ -57,6 +57,17 @@ Theorem C16_source_rank_is_kz : forall n w, In w (worlds n) -> forall Pc, Pc <> 
 Proof. exact tie_z_part2ocf_kz. Qed.
 Print Assumptions C16_source_rank_is_kz.
 
+(* SystemZPreOCF.rank_world is GENERATED too (the attribute self.ranks it writes is passed in and returned).  Whatever part of the table
+   is filled in (each entry absent or the Z-rank), and whether or not recomputation is forced: the answer is the Z-rank of the world,
+   the table keeps its worlds, stays correct, holds the rank of the asked world afterwards and is unchanged elsewhere - so ANY
+   sequence of rank_world calls on an object returns Z-ranks (induction over the calls with this invariant). *)
+Theorem C16_source_rank_world_lazy : forall n Pc (rk:wdict (option BinNums.Z)) w force, Pc <> [] -> ztable_ok n Pc rk -> In w (map fst rk) ->
+  exists rk', py_SystemZPreOCF_rank_world n (S (length Pc)) Pc w force rk = Return (Z.of_nat (kz world (acP Pc) w), rk') /\
+    map fst rk' = map fst rk /\ ztable_ok n Pc rk' /\ wdict_find rk' w = Some (Some (Z.of_nat (kz world (acP Pc) w))) /\
+    (forall w2, w2 <> w -> wdict_find rk' w2 = wdict_find rk w2).
+Proof. exact tie_zocf_rank_world. Qed.
+Print Assumptions C16_source_rank_world_lazy.
+
 Example birds_object : (match zocf_partition 4 None [] birds with Some P => map snd (zrun 4 P (cache0 4) [ORank 5; OFrank (v 1); OAccept q_wp]) | None => [] end)
    = [VNat 2; VOpt (Some 1); VBool false]
   /\ (match zocf_partition 4 None [FNot (v 1)] birds with Some P => map snd (zrun 4 P (cache0 4) [ORank 5; ORank 0]) | None => [] end) = [VNat 2; VNat 0].
